@@ -95,7 +95,12 @@ def main(argv):
         return 0
     table = {}
     for sid in ids():
-        res = run(sid, ns.tier, ALL if ns.allprops else None)
+        try:
+            res = run(sid, ns.tier, ALL if ns.allprops else None)
+        except SystemExit as ex:
+            print('%-6s %s' % (sid, ex))
+            table[sid] = {'-': 'patch-does-not-apply'}
+            continue
         table[sid] = {k: v[0] for k, v in res.items()}
     with open(os.path.join(SEEDED, 'RESULTS.json'), 'w') as f:
         json.dump({'tier': ns.tier, 'results': table}, f, indent=1, sort_keys=True)
